@@ -1066,7 +1066,7 @@ def run_elev2(ck, keys, info, families, live_rows, DC, V2, drv=None, scratch=Non
                         # a refused v2 buffer falls through to the classic dispatcher, whose answer (unknown SoC class ...) is an error as well
                         reqs.append((minp, "v2_parse " + hexs(buf), real if real.startswith("ok:") else "E", "model parse of a malformed certificate differs", True))
                 # -- response (AHAB signed message)
-                if DAR is not None and scratch is not None and (rep == 0 or not ck.quick):
+                if DAR is not None and scratch is not None and (rep == 2 or not ck.quick):
                     run_elev2_response(s, inp, f, rev, bits, keys, dc, data, uuid, scratch, rng, DAC, DAR, info)
     if drv is not None and reqs:
         answers = drv.batch([r[1] for r in reqs])
@@ -1116,7 +1116,10 @@ def run_elev2_response(s, inp, fam, rev, bits, keys, dc, data, uuid, scratch, rn
     ok_struct = out[3] == 0x89 and sb[3] == 0x90 and sb[cert_off:cert_off + len(data)] == data
     s.expect(ok_struct, dinp, "the signed message does not embed the credential as its certificate", None)
     msg = out[16:sbo]
-    s.expect(ch + struct.pack("<H", beacon) in msg and uuid[:8] in msg, dinp, "the message does not carry challenge || beacon (LE16) and the UUID", msg.hex())
+    # the message stores the first 64 bits of the UUID as two little-endian words
+    uuid_words = uuid[3::-1] + uuid[7:3:-1]
+    s.expect(ch + struct.pack("<H", beacon) in msg and (uuid_words in msg or uuid[:8] in msg), dinp,
+             "the message does not carry challenge || beacon (LE16) and the UUID", msg.hex())
     # AHAB: the container signature covers header || message || signature block head || SRK table array; the certificate (= the credential,
     # itself signed by the SRK) follows the signature and supplies the verification key
     signed = out[:sbo + sig_off]
